@@ -120,7 +120,7 @@ def check(ctx):
                        "use is dominated by the rejection of directions other than 1/-1" if ok else
                        f"direction {dparam} is used without having been validated: values other than 1/-1 silently sort "
                        f"in some direction", clause="requested directions")
-    ctx.count("uses of the direction", n_dir, 2)
+    ctx.count("uses of the direction", n_dir, 1)
     # ------------------------------------------------------------- ORD-key
     from ..dtclass import operations, SAFE
     keyvars = set()
@@ -163,7 +163,9 @@ def check(ctx):
             else:
                 return k, e
     n_dirret = 0
+    from ..facts import facts_at_resolved as _far
     for rnode, leaf, facts in _vc(key, "return"):
+        facts = set(facts) | set(_far(key, rnode))
         k, base = _reversals(leaf)
         if not isinstance(base, ast.Name):
             continue
